@@ -616,6 +616,11 @@ impl<T: Clone + Eq + Debug + Default> WrappedBlock<T> {
                             let mut pos = self.line.len + self.wslen;
                             let mut at_least_one_space = false;
                             while pos % tab_stop != 0 || !at_least_one_space {
+                                if self.width == 0 {
+                                    // No room at all (a zero-width block): a tab
+                                    // cannot be expanded, and looping would never end.
+                                    break;
+                                }
                                 if pos >= self.width {
                                     self.flush_line();
                                     pos = 0;
